@@ -91,7 +91,20 @@ C16_AgreesOffSingular == Done => \A g \in Grid :
      LET o == Eval(Expand(e), EnvOf(g), TRUE) IN (~IsU(o) /\ IsQ(o)) => o = RefEval(e, EnvOf(g))
 C16_TextRoundTrip == Done => Parse(Render(Expand(e), "min")).ast = Expand(e)
 OnSingular(g) == \E n \in RsNodes(e) : LET u == ToNum(RefEval(n.u, EnvOf(g))) IN IsQ(u) /\ u.n = 0
-Emit == Done => PrintT(ToJson([toks |-> Render(Expand(e), "min"), nsing |-> Cardinality({Expand(n.u) : n \in RsNodes(e)}),
+\* the same rate with the singular argument routed through an intermediate:  w = <argument>;  rate = e[argument := w]
+\* (the singular variable is then a state-dependent intermediate, not a state); defined when every removable node
+\* has the same argument
+RECURSIVE ViaW(_)
+ViaW(x) == CASE x.op = "rs" -> [x EXCEPT !.u = Var("w")]
+             [] x.op \in {"num", "big", "pi", "var"} -> x
+             [] x.op \in {"neg", "pos", "fn"} -> [x EXCEPT !.a = ViaW(x.a)]
+             [] OTHER -> [x EXCEPT !.a = ViaW(x.a), !.b = ViaW(x.b)]
+ViaArgs == {n.u : n \in RsNodes(e)}
+ViaOk == Cardinality(ViaArgs) = 1 /\ RsNodes(CHOOSE u \in ViaArgs : TRUE) = {}
+Emit == Done => PrintT(ToJson([via_ok |-> ViaOk,
+                               via_w |-> IF ViaOk THEN Render(Expand(CHOOSE u \in ViaArgs : TRUE), "min") ELSE <<>>,
+                               via_body |-> IF ViaOk THEN Render(Expand(ViaW(e)), "min") ELSE <<>>,
+                               toks |-> Render(Expand(e), "min"), nsing |-> Cardinality({Expand(n.u) : n \in RsNodes(e)}),
                                removable |-> RsNodes(e) # {},
                                grid |-> [g \in Grid |-> [x |-> Xs[g[1]], y |-> Ys[g[2]], on_singular |-> OnSingular(g),
                                                           ref |-> RefEval(e, EnvOf(g)), orig |-> Eval(Expand(e), EnvOf(g), TRUE)]]]))
